@@ -19,6 +19,7 @@ from .core import (Conc, Z, TupV, ExcV, ObjV, BoundM, FuncV, OPAQUE_STR, OpaqueS
 from .objtheory import sval, S, I, B, strlen, strcat, lit, casefold
 from .objtheory import prefixof, suffixof
 from .lextheory import LexTheory, set_has, sub_in, tid, optstr, pairs_has, allowed
+from .tables import char_of, elem_of, rec_has, zip_has, flat_has, assigned_in
 
 R = z3.RealSort()
 anychar_in = z3.Function("any_char_of_text_in_table", I, S, B)      # any(c in TABLE for c in s)
@@ -33,26 +34,22 @@ pp_a = z3.Function("pair_part_witness_open", I, S, S)
 pp_b = z3.Function("pair_part_witness_close", I, S, S)
 cmw_a = z3.Function("comment_witness_open", I, S, S)
 cmw_b = z3.Function("comment_witness_close", I, S, S)
-char_of = z3.Function("is_a_character_of", S, S, B)                  # (character, text)
 all_chars_ident = z3.Function("all_characters_are_identifier_characters", S, B)
 bad_char = z3.Function("non_identifier_character_witness", S, S)
 ascii_ok = z3.Function("encodes_as_ascii", S, B)
 all_chars_allowed = z3.Function("all_characters_allowed_by_the_grammar", S, B)
 bad_allowed = z3.Function("disallowed_character_witness", S, S)
-elem_of = z3.Function("is_an_element_of", I, I, B)                   # (element value id, collection value id)
 pylen = z3.Function("len_of_value", I, I)
 scalar_ok = z3.Function("is_scalar", I, B)                           # self.is_scalar(value)
 inner_ok = z3.Function("inner_elements_are_scalars", I, B)           # every element of the list is a scalar and not a list
 elems_ok = z3.Function("elements_are_scalars_or_lists_of_scalars", I, B)
 inner_wit = z3.Function("inner_element_witness", I, I)
 elems_wit = z3.Function("element_witness", I, I)
-rec_has = z3.Function("quantity_table_has", I, B)                    # a record (cls, value_prop, units_prop) of self.quantities
 inst_of = z3.Function("isinstance_of_quantity_class", I, I, B)       # (value id, record id)
 mag_id = z3.Function("magnitude_of", I, I, I)                        # getattr(value, record.value_prop)
 is_quantity = z3.Function("is_instance_of_a_registered_quantity_class", I, B)
 units_number = z3.Function("is_a_quantity_whose_magnitude_is_a_number", I, B)
 q_wit = z3.Function("quantity_class_witness", I, I)
-zip_has = z3.Function("zip_has_tuple", I, I, B)                     # zip(it1, it2) yields the pair (a, b)
 f_ok = z3.Function("function_returns_on", I, I, B)                   # function(a, b) returns (else it raises `exception`)
 f_res = z3.Function("function_result_on", I, I, I)
 any_ok = z3.Function("function_returns_on_some_tuple", B)
@@ -60,7 +57,6 @@ is_ok_result = z3.Function("is_the_result_on_an_accepted_tuple", I, B)
 ok_wit_a = z3.Const("accepted_tuple_witness_a", I)
 ok_wit_b = z3.Const("accepted_tuple_witness_b", I)
 ljust_fn = z3.Function("str_ljust", S, I, S)
-flat_has = z3.Function("is_a_part_of_some_pair", I, S, B)            # chain.from_iterable(PAIRS) yields x
 cf_in_flat = z3.Function("casefold_equal_to_a_part_of_some_pair", I, S, B)
 cff_wit = z3.Function("casefold_pair_part_witness", I, S, S)
 first_of = z3.Function("first_item_of_table", I, S)
@@ -68,6 +64,7 @@ fmt_fn = z3.Function("encoder_format", S, I, S)                      # self.form
 module_text = z3.Function("encode_module_text", I, I, S)             # self.encode_module(value, level)
 assign_ok = z3.Function("is_assignment_statement", S, B)
 tail1 = z3.Function("text_without_first_character", S, S)
+anychar_wit = z3.Function("character_in_table_witness", I, S, S)
 cf_wit = z3.Function("casefold_witness", I, S, S)
 sub_wit = z3.Function("substring_witness", I, S, S)
 str_of = z3.Function("str_of_value", I, S)                            # str(value)
@@ -178,6 +175,12 @@ class EncTheory(LexTheory):
             z3.ForAll([v, u], z3.Implies(z3.And(elems_ok(v), elem_of(u, v)), _outer_j(u)), patterns=[z3.MultiPattern(elems_ok(v), elem_of(u, v))]),
             z3.ForAll([v], z3.Implies(z3.Not(elems_ok(v)), z3.And(elem_of(elems_wit(v), v), z3.Not(_outer_j(elems_wit(v))))),
                       patterns=[elems_ok(v)]),
+            z3.ForAll([x, y], z3.Implies(char_of(x, y), strlen(x) == 1), patterns=[char_of(x, y)]),
+            # anychar_in(T, s) <=> some character of s is a member of T
+            z3.ForAll([k, x, y], z3.Implies(z3.And(char_of(x, y), set_has(k, x)), anychar_in(k, y)),
+                      patterns=[z3.MultiPattern(char_of(x, y), set_has(k, x), anychar_in(k, y))]),
+            z3.ForAll([k, y], z3.Implies(anychar_in(k, y), z3.And(char_of(anychar_wit(k, y), y), strlen(anychar_wit(k, y)) == 1,
+                                                                  set_has(k, anychar_wit(k, y)))), patterns=[anychar_in(k, y)]),
             z3.ForAll([v], z3.Implies(type_is(v, type_id("bool")), type_is(v, type_id("self.numeric_types"))),
                       patterns=[type_is(v, type_id("bool"))]),
         ]
@@ -237,7 +240,7 @@ class EncTheory(LexTheory):
         return None
 
     def global_name(self, ex, name):
-        if name in ("set", "frozenset", "list", "bool", "str", "datetime", "any", "Token", "isinstance", "len", "super", "enumerate", "max", "abc", "getattr", "zip", "chain"):
+        if name in ("set", "frozenset", "list", "bool", "str", "datetime", "any", "Token", "isinstance", "len", "super", "enumerate", "max", "abc", "getattr", "zip", "chain", "all"):
             return FuncV(name)
         return super().global_name(ex, name)
 
@@ -388,24 +391,6 @@ class EncTheory(LexTheory):
             raise Untranslatable("enumerate(non-text)")
         return ObjV("enum-chars", info={"text": t})
 
-    def b_any(self, ex, args, kwargs):
-        (v,) = args
-        if isinstance(v, ObjV) and v.role == "anychar":
-            return Z("bool", anychar_in(v.info["table"], v.info["text"]))
-        raise Untranslatable("any(...)")
-
-    def comprehension(self, ex, node):
-        # (c in TABLE for c in s)  ->  a value only any() consumes
-        if (isinstance(node, ast.GeneratorExp) and len(node.generators) == 1 and not node.generators[0].ifs
-                and isinstance(node.elt, ast.Compare) and len(node.elt.ops) == 1 and isinstance(node.elt.ops[0], ast.In)
-                and isinstance(node.elt.left, ast.Name) and isinstance(node.generators[0].target, ast.Name)
-                and node.elt.left.id == node.generators[0].target.id):
-            table = ex.expr(node.elt.comparators[0])
-            text = self.sv(ex.expr(node.generators[0].iter))
-            if isinstance(table, ObjV) and table.role == "strset" and text is not None:
-                return ObjV("anychar", info={"table": table.info["id"], "text": text})
-        raise Untranslatable("comprehension")
-
     def binop(self, ex, op, a, b):
         if isinstance(op, ast.Div):
             ia, ib = ex.as_int(a), ex.as_int(b)
@@ -543,107 +528,3 @@ class EncTheory(LexTheory):
         return super().call_method(ex, recv, name, args, kwargs)
 
     # ---- loops -----------------------------------------------------------------------------
-    def for_loop(self, ex, node, itv, spec, ordn):
-        if isinstance(itv, ObjV) and itv.role == "mixed-iter":
-            # the explicit items first (unrolled), then the table
-            for x in itv.info["items"]:
-                ex.assign(node.target, x)
-                try:
-                    ex.stmts(node.body)
-                except _Break:
-                    return
-                except _Continue:
-                    continue
-            return self.search_loop(ex, node, itv.info["rest"], spec, ordn)
-        if isinstance(itv, ObjV) and itv.role in ("strset", "pairs") and getattr(spec, "fall_through", None) is not None:
-            return self.search_loop(ex, node, itv, spec, ordn)
-        if self.sv(itv) is not None and getattr(spec, "fall_through", None) is not None:
-            return self.search_loop(ex, node, ObjV("chars", info={"text": self.sv(itv)}), spec, ordn)
-        if isinstance(itv, ObjV) and itv.role == "flatpairs" and getattr(spec, "fall_through", None) is not None:
-            return self.search_loop(ex, node, ObjV("flat", info={"id": itv.info["id"]}), spec, ordn)
-        if isinstance(itv, ObjV) and itv.role == "ziptable" and getattr(spec, "fall_through", None) is not None:
-            return self.search_loop(ex, node, ObjV("pairs-of-values", info={"id": z3.IntVal(0)}), spec, ordn)
-        if isinstance(itv, ObjV) and itv.role == "records" and getattr(spec, "fall_through", None) is not None:
-            return self.search_loop(ex, node, ObjV("recordtable", info={"id": z3.IntVal(0)}), spec, ordn)
-        if isinstance(itv, ObjV) and itv.role == "pyval" and getattr(spec, "fall_through", None) is not None:
-            return self.search_loop(ex, node, ObjV("elements", info={"id": itv.info["id"]}), spec, ordn)
-        if isinstance(itv, ObjV) and itv.role == "enum-chars" and getattr(spec, "fall_through", None) is not None:
-            return self.search_loop(ex, node, ObjV("chars", info={"text": itv.info["text"], "enum": True}), spec, ordn)
-        return super().for_loop(ex, node, itv, spec, ordn)
-
-    def search_loop(self, ex, node, table, spec, ordn):
-        q = ex.fv.qual
-        lname = f"loop#{ordn}"
-        J = getattr(spec, "fall_through", None)
-        E = getattr(spec, "exit", None)
-        if J is None or E is None:
-            raise Untranslatable(f"search loop #{ordn} without fall-through / exit facts")
-        if assigned_in(node.body) - {t.id for t in ast.walk(node.target) if isinstance(t, ast.Name)}:
-            raise Untranslatable(f"search loop #{ordn} assigns variables")
-        chars = table.role == "chars"
-        elements = table.role in ("elements", "recordtable")
-        records = table.role == "recordtable"
-        k = table.info["text"] if chars else table.info["id"]
-        flat = table.role == "flat"
-        member = ((lambda x: char_of(x, k)) if chars else (lambda x: rec_has(x)) if records else
-                  (lambda x: elem_of(x, k)) if elements else (lambda x: flat_has(k, x)) if flat else (lambda x: set_has(k, x)))
-        pairs = table.role == "pairs"
-        vpairs = table.role == "pairs-of-values"
-        c = ex.path.choose(2, f"for@{node.lineno}")
-        if c == 0:
-            if vpairs:
-                x = (fresh("tuple_a", I), fresh("tuple_b", I))
-                ex.st.assume(zip_has(x[0], x[1]))
-                ex.assign(node.target, TupV([ObjV("pyval", info={"id": x[0]}), ObjV("pyval", info={"id": x[1]})]))
-            elif pairs:
-                x = (fresh("member_open", S), fresh("member_close", S))
-                ex.st.assume(pairs_has(k, x[0], x[1]))
-                ex.assign(node.target, TupV([Z("str", x[0]), Z("str", x[1])]))
-            elif elements:
-                x = fresh("element_id", I)
-                ex.st.assume(member(x))
-                ex.assign(node.target, ObjV("record" if records else "pyval", info={"id": x}))
-            else:
-                x = fresh("member", S)
-                ex.st.assume(member(x))
-                if chars:
-                    ex.st.assume(strlen(x) == 1)
-                if chars and table.info.get("enum"):
-                    ex.assign(node.target, TupV([Z("int", fresh("index", I)), Z("str", x)]))
-                elif not elements:
-                    ex.assign(node.target, Z("str", x))
-            try:
-                ex.stmts(node.body)
-            except _Break:
-                raise Untranslatable("break in search loop")
-            except _Continue:
-                pass
-            for nm, f in J(ex.env, ex.st, x):
-                ex.oblige(f"{q}:{lname}:falls-through-only-when:{nm}", f)
-            raise PathEnd()
-        # normal end of the loop: every member fell through
-        if vpairs:
-            xa, xc = z3.Const("bound_tuple_a", I), z3.Const("bound_tuple_b", I)
-            closure = z3.ForAll([xa, xc], z3.Implies(zip_has(xa, xc), z3.And(*[f for _, f in J(ex.env, ex.st, (xa, xc))])))
-        elif pairs:
-            xa, xc = z3.Const("bound_member_open", S), z3.Const("bound_member_close", S)
-            closure = z3.ForAll([xa, xc], z3.Implies(pairs_has(k, xa, xc), z3.And(*[f for _, f in J(ex.env, ex.st, (xa, xc))])))
-        else:
-            xb = z3.Const("bound_member", I if elements else S)
-            closure = z3.ForAll([xb], z3.Implies(member(xb), z3.And(*[f for _, f in J(ex.env, ex.st, xb)])))
-        for nm, f in E(ex.env, ex.st):
-            ex.oblige(f"{q}:{lname}:exit-fact-is-the-forall-closure:{nm}", z3.Implies(closure, f))
-            ex.st.assume(f)
-        ex.stmts(node.orelse)
-
-
-def assigned_in(body):
-    out = set()
-    for n in body:
-        for c in ast.walk(n):
-            if isinstance(c, (ast.Assign, ast.AugAssign, ast.AnnAssign)):
-                for t in (c.targets if isinstance(c, ast.Assign) else [c.target]):
-                    for nn in ast.walk(t):
-                        if isinstance(nn, ast.Name):
-                            out.add(nn.id)
-    return out
